@@ -375,6 +375,14 @@ class Ops:
         if isinstance(a, (DictV, ObjV)) and isinstance(op, ast.BitOr):
             return self.dict_union(a, b, node)
         ta, tb = tv_of(a), tv_of(b)
+        if ta is not None and tb is not None and ta.note.startswith("finite-test") and tb.note.startswith("finite-test") and ta.origin == tb.origin and ta.axes == tb.axes:
+            # element-wise predicates about the finiteness of one tensor: isnan | isinf is "not finite"; everything else is some other predicate
+            parts = {ta.note, tb.note}
+            if isinstance(op, ast.BitOr) and parts == {"finite-test:nan", "finite-test:inf"}:
+                return ta.but(note="finite-test:non")
+            if parts == {ta.note} and isinstance(op, (ast.BitOr, ast.BitAnd)):
+                return ta
+            return ta.but(note="finite-test:other")
         if ta is not None and tb is not None:
             r = self.elementwise(ta, tb, "mul", node)
             return r.but(deg=F0, dtype=self.promote(ta.dtype, tb.dtype), poly=None)
@@ -393,7 +401,7 @@ class Ops:
             tv = tv_of(v)
             if tv is not None:
                 note = tv.note
-                if note.startswith("nonempty?"):
+                if note.startswith(("nonempty?", "allfinite?")):
                     note = note[:-4] if note.endswith("|neg") else note + "|neg"  # the opposite answer to the same question
                 return tv.but(kind="pybool" if tv.is_py else tv.kind, dtype="Bool", poly=None, note=note)
             return TV(kind="pybool", dtype="Bool")
@@ -405,6 +413,8 @@ class Ops:
         if isinstance(op, ast.UAdd):
             return tv
         if isinstance(op, ast.Invert):
+            if tv.note.startswith("finite-test"):
+                return tv.but(note={"finite-test": "finite-test:non", "finite-test:non": "finite-test"}.get(tv.note, "finite-test:other"))
             return tv.but(poly=None, alias=False)
         return self.unk("unary op", node)
 
@@ -435,6 +445,10 @@ class Ops:
                 pol = {ast.NotEq: True, ast.Gt: True, ast.Eq: False, ast.LtE: False}.get(tp)
                 if pol is not None:
                     return TV(kind="pybool", dtype="Bool", note="nonempty?" + "+".join(sorted(x.origin)) + ("" if pol else "|neg"))
+        if isinstance(a, ClassV) and isinstance(b, (ClassV, ExtV)) and isinstance(op, (ast.Eq, ast.NotEq)):
+            r = self.identity(a, b)  # classes compare by identity
+            if r is not None:
+                return Const(r if isinstance(op, ast.Eq) else not r)
         # structural comparisons of python data
         if not isinstance(a, (TV, Const)) or not isinstance(b, (TV, Const)):
             return self.compare_data(a, op, b, node, env)
@@ -494,6 +508,10 @@ class Ops:
             return False if isinstance(a, (TV, ListV, DictV, SetV, ObjV, FuncV, ClassV, MetaV)) else None
         if isinstance(a, ObjV) and isinstance(b, ObjV):
             return a is b or a.oid == b.oid
+        if isinstance(a, ClassV) and isinstance(b, ClassV):
+            return a.cls is b.cls  # `type(x) is C`
+        if (isinstance(a, ClassV) and isinstance(b, ExtV)) or (isinstance(a, ExtV) and isinstance(b, ClassV)):
+            return False
         return None  # (an OptV against None: open)
 
     def contains(self, container, item, negate, node):
@@ -557,7 +575,7 @@ class Ops:
                         return ("nonempty?" + atoms_txt, (not nonempty) ^ neg)
             canon = {"NotEq": ("Eq", True), "GtE": ("Lt", True), "LtE": ("Gt", True)}.get(op, (op, False))
             return (f"{canon[0]}:{sc[0]['diff']}", canon[1] ^ neg)
-        if isinstance(val, TV) and val.note.startswith("nonempty?"):
+        if isinstance(val, TV) and val.note.startswith(("nonempty?", "allfinite?")):
             return (val.note.split("|")[0], val.note.endswith("|neg"))
         if isinstance(val, (SetV, ListV)) and val.items is None:
             at = sorted(self.atoms_of(val))
@@ -759,6 +777,8 @@ class Ops:
             return ("concrete", list(v.items))
         if isinstance(v, SetV) and v.items is not None:
             return ("concrete", list(v.items))
+        if isinstance(v, ObjV) and getattr(v, "tuple_fields", None) and all(f in v.fields for f in v.tuple_fields):
+            return ("concrete", [v.fields[f] for f in v.tuple_fields])  # NamedTuple instance: its fields, in declaration order
         return ("abstract", v)
 
     def unpack(self, v, n, node):
